@@ -80,8 +80,8 @@ pub fn default_runs(prop: &str, tier: &str) -> (u64, u64) {
         ("C03", _) => (2000000, 150000),
         ("C10", "quick") => (10000, 1500),
         ("C10", _) => (500000, 60000),
-        ("C14", "quick") => (30000, 3000),
-        ("C14", _) => (1000000, 60000),
+        ("C14", "quick") => (60000, 6000),
+        ("C14", _) => (3000000, 300000),
         _ => (100, 10),
     }
 }
